@@ -21,10 +21,11 @@ func init() {
 			"(R6) purge loops delete only behind prefix/not-deleted/match tests and terminate only at end of data, prefix end or cancellation (a batch boundary does not end the purge); (R7) siblings map 'absent' alike; (R8) the directory walk of the file-tree backend starts at a root that contains every file whose path extends the query prefix (the prefix path itself only when it was tested to be a directory, otherwise its parent or the base path), the callback's key-prefix filter being part of R3. " +
 			"(R9) lock pairing over the functions of package(s) database/storage/hashmap, database/storage/bbolt, database/storage/badger, database/storage/fstree, database/storage/sinkhole, database/storage, database/iterator: " + lockRuleText + ". " +
 			"(R10) no error returned by a storage backend, the controller or the database interface is discarded by code of the database packages (named exceptions: best-effort registry save). " +
+			"(R11) the read cache stores an entry without expiry only for records that have none (ttl < 0); a remaining lifetime of 0 still goes through SetWithExpire. " +
 			"NOT decided: equivalence with a reference map over operation histories, operator semantics through the accessors, physical state after crashes.",
 		Rules: []ruleFn{c02R1, c02R2, c02R3, c02R4, c02R5, c02R6, c02R7, c02R8,
 			lockRuleFor("C02-R9", 9, []string{"database/storage/hashmap", "database/storage/bbolt", "database/storage/badger", "database/storage/fstree", "database/storage/sinkhole", "database/storage", "database/iterator"}, []string{}, map[string]string{}),
-			c02R10},
+			c02R10, c02R11},
 	})
 }
 
@@ -837,4 +838,39 @@ func c02R10(c *Ctx, r *Report) {
 		"database.Register / database.saveRegistry":         "best-effort persistence of the registry after a registration; the registration itself already succeeded in memory",
 		"database.registryWriter / database.saveRegistry":  "periodic best-effort save; the next tick retries",
 	})
+}
+
+func c02R11(c *Ctx, r *Report) {
+	const rule = "C02-R11"
+	r.SetFloor(rule, 1)
+	fn := c.Func("database.(*Interface).updateCache")
+	if fn == nil {
+		r.Undecided(rule, "database.(*Interface).updateCache", "anchor function missing")
+		return
+	}
+	var ttl *ssa.Parameter
+	for _, p := range fn.Params {
+		if p.Name() == "ttl" {
+			ttl = p
+		}
+	}
+	if ttl == nil {
+		r.Undecided(rule, fnKey(fn), "ttl parameter not found")
+		return
+	}
+	gs := cmpGuards("ttl < 0", func(v ssa.Value) bool { return v == ssa.Value(ttl) }, func(x int64) bool { return x < 0 }, 0)
+	n := 0
+	eachInstr(fn, func(in ssa.Instruction) {
+		ci, ok := in.(ssa.CallInstruction)
+		if !ok || !ci.Common().IsInvoke() || ci.Common().Method.Name() != "Set" {
+			return
+		}
+		n++
+		p := ReachTargetAvoiding(fn, in, gs, nil)
+		r.Check(p == nil, rule, fnKey(fn)+" / cache.Set without expiry", "reachable only for ttl < 0 (record without expiry)",
+			"a record with a remaining lifetime (ttl >= 0, including 0 = expires now) can be cached without expiry and is then served after it expired", append([]string{c.Pos(in.Pos())}, c.pathString(p)...)...)
+	})
+	if n == 0 {
+		r.Undecided(rule, fnKey(fn), "no cache.Set call found")
+	}
 }
